@@ -89,6 +89,26 @@ fn catch<F: FnOnce() -> R, R>(f: F) -> Result<R, String> {
     }
 }
 
+fn final_dump(w: &World) {
+    // printed after the fact, so that the execution before the violation is not perturbed
+    for (i, n) in w.nodes.iter().enumerate() {
+        let txn = yrs::Transact::transact(&n.doc);
+        eprintln!(
+            "-- node {} (client {}) lo={:?} missing={}\n{}{}   dump: {}",
+            i,
+            n.cfg.client_id,
+            n.lo.to_vec(),
+            yrs::ReadTxn::has_missing_updates(&txn),
+            yrs::verif::blocks_dump(yrs::ReadTxn::store(&txn)),
+            yrs::verif::sequences_dump(yrs::ReadTxn::store(&txn)),
+            crate::dump::dump_doc(&txn)
+        );
+    }
+    for (i, u) in w.uids.iter().enumerate() {
+        eprintln!("-- u{} by node {} primary={} deps={:?}: {:?}", i, u.node, u.primary, u.deps.to_vec(), decode(&u.payload, Enc::V1));
+    }
+}
+
 fn finish(mut w: World, mut violation: Option<Violation>, full: bool) -> RunOutput {
     if violation.is_none() {
         let profile = w.cfg.profile.clone();
@@ -106,6 +126,9 @@ fn finish(mut w: World, mut violation: Option<Violation>, full: bool) -> RunOutp
     }
     if violation.is_none() && !w.soft.is_empty() {
         violation = Some(w.soft[0].clone());
+    }
+    if violation.is_some() && crate::arena::FINAL.load(std::sync::atomic::Ordering::Relaxed) {
+        crate::arena::outside(|| final_dump(&w));
     }
     let mut fh = String::new();
     if violation.is_none() {
@@ -172,18 +195,22 @@ pub fn run_replay(cfg: &RunCfg, cell_seed: u64, trace: &[TraceEv]) -> RunOutput 
     // function of the cell seed only, so a replayed (and a shrunk) trace sees the same choices
     let mut w = World::new(cfg.clone(), 0, crate::rng::mix(cell_seed, 0x51));
     let mut violation = None;
-    let verbose = std::env::var("YSIM_VERBOSE").is_ok();
+    let verbose = crate::arena::verbose();
     for tev in trace {
         w.trace.push(tev.clone());
         if verbose {
-            eprintln!("==== event {}", serde_json::to_string(tev).unwrap());
+            crate::arena::outside(|| eprintln!("==== event {}", serde_json::to_string(tev).unwrap()));
         }
         let r = catch(|| w.exec(tev));
+        if crate::arena::ASTAT.load(std::sync::atomic::Ordering::Relaxed) {
+            let st = crate::arena::stats();
+            eprintln!("astat eid={} n_alloc={} live={} peak={}", tev.eid, st.n_alloc, st.live, st.peak);
+        }
         if verbose {
-            for (i, n) in w.nodes.iter().enumerate() {
+            crate::arena::outside(|| for (i, n) in w.nodes.iter().enumerate() {
                 let txn = yrs::Transact::transact(&n.doc);
-                eprintln!("-- node {} (client {}) lo={:?} hi={:?} missing={}\n{}\n   dump: {}", i, n.cfg.client_id, n.lo.to_vec(), n.hi.to_vec(), yrs::ReadTxn::has_missing_updates(&txn), yrs::verif::blocks_dump(yrs::ReadTxn::store(&txn)), crate::dump::dump_doc(&txn));
-            }
+                eprintln!("-- node {} (client {}) lo={:?} hi={:?} missing={}\n{}{}   dump: {}", i, n.cfg.client_id, n.lo.to_vec(), n.hi.to_vec(), yrs::ReadTxn::has_missing_updates(&txn), yrs::verif::blocks_dump(yrs::ReadTxn::store(&txn)), yrs::verif::sequences_dump(yrs::ReadTxn::store(&txn)), crate::dump::dump_doc(&txn));
+            });
         }
         match r {
             Ok(Ok(())) => {}
@@ -199,25 +226,6 @@ pub fn run_replay(cfg: &RunCfg, cell_seed: u64, trace: &[TraceEv]) -> RunOutput 
                 });
                 break;
             }
-        }
-    }
-    if violation.is_some() && std::env::var("YSIM_FINAL").is_ok() {
-        // printed after the fact, so that the execution before the violation is not perturbed
-        // (allocations move addresses, and with them address-keyed hash orders inside yrs)
-        for (i, n) in w.nodes.iter().enumerate() {
-            let txn = yrs::Transact::transact(&n.doc);
-            eprintln!(
-                "-- node {} (client {}) lo={:?} missing={}\n{}   dump: {}",
-                i,
-                n.cfg.client_id,
-                n.lo.to_vec(),
-                yrs::ReadTxn::has_missing_updates(&txn),
-                yrs::verif::blocks_dump(yrs::ReadTxn::store(&txn)),
-                crate::dump::dump_doc(&txn)
-            );
-        }
-        for (i, u) in w.uids.iter().enumerate() {
-            eprintln!("-- u{} by node {} primary={} deps={:?}: {:?}", i, u.node, u.primary, u.deps.to_vec(), decode(&u.payload, Enc::V1));
         }
     }
     finish(w, violation, true)
